@@ -2,6 +2,7 @@
 import copy
 import os
 import pickle
+import warnings
 
 from sim.chart import Cfg, swarm, gen_spec, build_api, cond_code
 from sim.engine import Result, Abandon, fp
@@ -14,6 +15,7 @@ from sismic.interpreter import Interpreter
 from sismic.clock import SimulatedClock
 from sismic.clock import clock as clockmod
 from sismic.model import Event, Statechart, CompoundState, BasicState, FinalState, Transition
+from sismic.model.events import DelayedEvent
 
 ID = 'C18'
 LEVEL = 'fault_enumeration'
@@ -22,7 +24,7 @@ BUDGET = {'quick': 40, 'thorough': 300}
 BLOCK = 8
 STREAM_ORDER = ['ops', 'guards', 'faults', 'chart', 'cfg']
 RULE = ('well-formed chart with contracts reading __old__, history states, sends and delayed events; a seeded script of queue (with '
-        'delays) / clock advance / execute_once with drawn guard outcomes and some contract conditions made false; in a third of the runs a property statechart that reads its synchronised clock is bound and is part of the snapshot; in a third of the runs guards log after() and idle(); in a third some sent events carry the list of the context itself as a parameter; in a third the interpreter is bound to a method of a component object that is also reachable from its context; in a quarter the context holds a counter named __n__ that entry code increments; in a quarter of the runs the clock is a started sismic SimulatedClock (speed 1, 2 or 1/2) fed by a scripted wall time. The "crash" is a '
+        'delays) / clock advance / execute_once with drawn guard outcomes and some contract conditions made false; in a third of the runs a property statechart that reads its synchronised clock is bound and is part of the snapshot; in a third of the runs guards log after() and idle(); in a third some sent events carry the list of the context itself as a parameter; in a third the interpreter is bound to a method of a component object that is also reachable from its context; in a quarter the context holds a counter named __n__ that entry code increments; a quarter of the delayed events are queued through the deprecated DelayedEvent class, whose delay attribute the code reads when it looks at the event; in a quarter of the runs the clock is a started sismic SimulatedClock (speed 1, 2 or 1/2) fed by a scripted wall time. The "crash" is a '
         'snapshot (pickle.dumps+loads, and copy.deepcopy) taken at a macro-step boundary: at EVERY boundary b of the script (thorough) or 6 '
         'drawn boundaries (quick), and a second time a few steps later (restore, continue, crash again). The restored interpreter and the '
         'original are continued in lock-step and both must reproduce the undisturbed control run: macro steps, configurations, context, '
@@ -93,6 +95,12 @@ class Player:
             return None
         if op[0] == 'queue':
             kw = {'uid': op[3]}
+            if op[2] is not None and len(op) > 4 and op[4]:
+                # the deprecated (still supported) class for delayed events
+                with warnings.catch_warnings():
+                    warnings.simplefilter('ignore')
+                    it.queue(DelayedEvent(op[1], op[2], **kw))
+                return None
             if op[2] is not None:
                 kw['delay'] = op[2]
             it.queue(Event(op[1], **kw))
@@ -232,6 +240,9 @@ def prepare(ch, tier, res):
             uid += 1
             live = sorted({t.event for t in sp.trans if t.event and t.src in set(control.it.configuration)})
             op = ('queue', ops.pick(live) if live and ops.flag(3, 4) else ops.pick(names), ops.pick([None, None, 0, 1, 2, 5]), uid)
+            if op[2] is not None and ops.flag(1, 4):
+                op = op + (True,)
+                res.stats['events_queued_as_deprecated_DelayedEvent'] += 1
         elif kind == 'advance':
             op = ('advance', ops.pick([1, 0, 2, 5, 0.5]))
         else:
